@@ -187,24 +187,42 @@ func (err *wrapError) Error() string {
 }
 
 func (loc *SourceLoc) writeTo(w stringWriter, indent string) {
+	loc.writeToFrom(w, indent, nil)
+}
+
+// writeToFrom writes the location and the chain of includes which led to
+// it.  seen is the list of files already on that chain: when files include
+// each other, the chain is cut where it closes instead of following the
+// cycle forever.
+func (loc *SourceLoc) writeToFrom(w stringWriter, indent string, seen []*SourceFile) {
 	if loc.File == nil ||
 		loc.File.FullPath == "" && len(loc.File.IncludedFrom) == 0 {
 		fmt.Fprintf(w, "line %d", loc.Line)
-	} else if len(loc.File.IncludedFrom) == 0 {
+		return
+	}
+	for _, f := range seen {
+		if f == loc.File {
+			mustWriteString(w, loc.File.FullPath)
+			fmt.Fprintf(w, ":%d", loc.Line)
+			return
+		}
+	}
+	seen = append(seen, loc.File)
+	if len(loc.File.IncludedFrom) == 0 {
 		mustWriteString(w, loc.File.FullPath)
 		fmt.Fprintf(w, ":%d", loc.Line)
 	} else if len(loc.File.IncludedFrom) == 1 {
 		fmt.Fprintf(w, "%s:%d\n%s    included from ",
 			loc.File.FullPath, loc.Line,
 			indent)
-		loc.File.IncludedFrom[0].writeTo(w, indent)
+		loc.File.IncludedFrom[0].writeToFrom(w, indent, seen)
 	} else {
 		newIndent := indent + "    "
 		fmt.Fprintf(w, "%s:%d included from:",
 			loc.File.FullPath, loc.Line)
 		for i, inc := range loc.File.IncludedFrom {
 			fmt.Fprintf(w, "\n%s[%d] ", newIndent, i)
-			inc.writeTo(w, newIndent)
+			inc.writeToFrom(w, newIndent, seen)
 		}
 	}
 }
